@@ -763,7 +763,11 @@ func (c *pathCtx) recordPanic(e interface{}) {
 	}
 	v := Violation{Kind: kind, Label: "no-crash", Message: msg, Site: site, Stack: c.panicStack,
 		Decisions: decString(c.decisions), Class: "C20"}
-	v.Signature = "panic|" + site + "|" + digitsRe.ReplaceAllString(msg, "N")
+	short := msg
+	if i := strings.IndexAny(short, "[\"'"); i > 0 {
+		short = short[:i]
+	}
+	v.Signature = "panic|" + site + "|" + digitsRe.ReplaceAllString(short, "N")
 	func() {
 		defer func() { recover() }()
 		v.Inputs, _ = c.fillModel("true")
